@@ -31,10 +31,18 @@ CheckLine(r) ==
       /\ Ck(r, "C04.work", ~r.over /\ r.work <= WA + WB * (r.n + MinN(r.avail, MaxMsg + 19)), <<r.work, r.n>>)
       /\ Ck(r, "C04.noescape", r.exc = 0, <<>>)
 
+\* a long run of well-formed messages (n UPDATEs and a KEEPALIVE, built by the harness): every one reported once and in order
+CheckLong(r) ==
+   /\ Ck(r, "C04.long", r.reported = r.n /\ r.ordered /\ r.ka /\ r.others = 0 /\ ~r.closed, <<r.n, r.reported, r.ordered, r.ka>>)
+   /\ Ck(r, "C04.onenotif", r.nots = <<>>, r.nots)
+   /\ Ck(r, "C04.work", ~r.over, <<>>)
+   /\ Ck(r, "C04.noescape", r.exc = 0, <<>>)
+
 TInit == l = 1 /\ bytes = <<>>
 TNext == /\ l <= Len(Tr)
          /\ LET r == Tr[l] IN
             IF r.k = "stream" THEN bytes' = r.bytes
+            ELSE IF r.k = "long" THEN CheckLong(r) /\ UNCHANGED bytes
             ELSE CheckLine(r) /\ UNCHANGED bytes
          /\ l' = l + 1
 AllConsumed == TLCGet("stats").diameter - 1 = Len(Tr)
